@@ -1573,12 +1573,19 @@ impl SystemState {
         match target.0 {
             0 => todo!("wait target {}", target),
             -1 => {
-                // any child
+                // any child, preferring one whose state has changed, then one
+                // that is still alive (so that an already awaited child does
+                // not hide a running one)
                 let mut result = None;
+                let mut result_is_alive = false;
                 for (pid, process) in &mut self.processes {
                     if process.ppid == parent_pid {
                         let changed = process.state_has_changed();
-                        result = Some((*pid, process));
+                        let alive = process.state().is_alive();
+                        if changed || result.is_none() || (alive && !result_is_alive) {
+                            result = Some((*pid, process));
+                            result_is_alive = alive;
+                        }
                         if changed {
                             break;
                         }
